@@ -48,6 +48,10 @@ type RenameLabel struct {
 // Process implements Processor.
 func (rl *RenameLabel) Process(_ otelstorage.Timestamp, line string, set LabelSet) (_ string, keep bool) {
 	for _, p := range rl.pairs {
+		if p.Label == p.To {
+			// Renaming label to itself must not delete it.
+			continue
+		}
 		if v, ok := set.Get(p.Label); ok {
 			set.Set(p.To, v)
 			set.Delete(p.Label)
